@@ -334,21 +334,46 @@ Definition format_cpp_num (a : numarg) : res pfac :=
   end.
 
 (** format_prefactor.  syms: for every Symbol object of the term str(obj.base)
-    and its exponent (range(exponent): nothing for exponents <= 0). *)
-Fixpoint sym_names (syms : list (string * nat)) : list pfac :=
+    and its exponent.  A negative exponent (division by a symbol) is refused
+    first; range(exponent) then prints exponent copies. *)
+Fixpoint sym_names (syms : list (string * Z)) : list pfac :=
   match syms with
   | [] => []
-  | (s, n) :: r => (repeat (FSym s) n ++ sym_names r)%list
+  | (s, e) :: r => (repeat (FSym s) (Z.to_nat e) ++ sym_names r)%list
   end.
+(* all symbol exponents are non-negative: only then the printed symbols denote
+   the symbolic prefactor (range(exponent) prints nothing for 1/x) *)
+Definition syms_nonneg (syms : list (string * Z)) : bool :=
+  forallb (fun se : string * Z => Z.leb 0 (snd se)) syms.
 Definition format_prefactor (be : backend) (nums : list numarg)
-           (syms : list (string * nat)) : res (list pfac) :=
+           (syms : list (string * Z)) : res (list pfac) :=
+  if negb (syms_nonneg syms) then Refuse      (* "Prefactors not implemented for divisions" *)
+  else
   do nu <- rmap (match be with Einsum => format_python_num | Libtensor => format_cpp_num end) nums ;;
   Ok (nu ++ sym_names syms)%list.
+
+(** the loop over term.objects at the beginning of optimize_contractions and
+    unoptimized_contraction: numbers are skipped, then a negative exponent is
+    refused ("Contractions not implemented for divisions") BEFORE symbols are
+    skipped, then anything that is not a tensor or delta is refused *)
+Inductive okind := OkNumber | OkSymbol | OkTensor | OkOther.
+Fixpoint scheme_guard (objs : list (okind * Z)) : res unit :=
+  match objs with
+  | [] => Ok tt
+  | (OkNumber, _) :: r => scheme_guard r
+  | (k, e) :: r =>
+      if Z.ltb e 0 then Refuse
+      else match k with
+           | OkOther => Refuse
+           | _ => scheme_guard r
+           end
+  end.
 
 (** one term as seen by generate_code *)
 Record cterm := CTerm { ct_neg : bool;                          (* term.prefactor < 0 *)
                         ct_nums : list numarg;
-                        ct_syms : list (string * nat);
+                        ct_syms : list (string * Z);
+                        ct_objs : list (okind * Z);             (* kind of base, exponent of term.objects *)
                         ct_hasidx : bool;                       (* bool(term.idx) *)
                         ct_objspaces : list (list space);
                         ct_scheme : res (list cstep) }.          (* result of the scheme search *)
@@ -375,6 +400,7 @@ Definition gen_term (be : backend) (t : cterm) : res line :=
   do pf <- format_prefactor be (ct_nums t) (ct_syms t) ;;
   if negb (ct_hasidx t) then Ok (Line (ct_neg t) pf None)
   else
+    do _g <- scheme_guard (ct_objs t) ;;
     do steps <- ct_scheme t ;;
     do comment <- format_scaling_comment be (ct_objspaces t) steps ;;
     let (inner, outer) := split_inner_outer steps in
